@@ -115,7 +115,7 @@ def sampled_stand_in_step(unit, rows_of, n_per_row=20000, far_n=40):
     return step
 
 
-def run(prop, unit, tier, assumptions, samples, not_decided, slow=(), extra_units=(), extra_steps=None, quick_skip=None, slow_jobs=3):
+def run(prop, unit, tier, assumptions, samples, not_decided, slow=(), extra_units=(), extra_steps=None, quick_skip=None, slow_jobs=3, quick_share=1):
     u = kx.UNITS[unit]
     _non, not_cov = not_instruction_methods(os.path.join(common.VERIF, u['rows']))
     slow_set = set(slow) | slow_rows(os.path.join(common.VERIF, u['rows']))
@@ -131,7 +131,14 @@ def run(prop, unit, tier, assumptions, samples, not_decided, slow=(), extra_unit
             fast = set(r for r in allr if r not in slow_set and not (quick_skip and quick_skip(r)))
             slow_ = set(allr) - fast
             return [dict(only=fast, jobs=14, timeout=7200), dict(only=slow_, jobs=slow_jobs, timeout=6 * 3600)]
-        return set(r for r in rows if r not in slow_set and not r.endswith('_sweep') and not (quick_skip and quick_skip(r)))
+        fast = [r for r in rows if r not in slow_set and not r.endswith('_sweep') and not (quick_skip and quick_skip(r))]
+        # The quick tier must finish well inside 15 minutes, and the cost is per harness (build + goto-instrument, 3-5 s each, on top of
+        # the solver): it PROVES every quick_share-th cheap row - which ones rotates with VERIF_SEED, so that successive runs cover all of
+        # them - and EXECUTES all the others with seeded operands (sampled stand-in below). The thorough tier proves every row.
+        if quick_share > 1:
+            k = common.seed() % quick_share
+            fast = [r for i, r in enumerate(fast) if i % quick_share == k]
+        return set(fast)
     steps = [extra_steps] if extra_steps else []
 
     def skipped_rows():
@@ -155,4 +162,4 @@ def run(prop, unit, tier, assumptions, samples, not_decided, slow=(), extra_unit
                                    row_filter=row_filter, not_covered=['%s: %s' % nc for nc in not_cov],
                                    method_check={unit: make_method_check(unit)}, extra_steps=all_steps,
                                    jobs=(4 if tier == 'thorough' else 14),
-                                   extra_cov=dict(slow_rows_only_in_thorough=sorted(slow_set)))
+                                   extra_cov=dict(slow_rows_only_in_thorough=sorted(slow_set), quick_tier_proves_every_nth_cheap_row=quick_share))
